@@ -6,10 +6,10 @@ CONSTANT SimKinds      \* sequence of kinds; repetitions weight the choice
 
 VARIABLE pending
 
-KindsAll == <<"http", "grpc", "weight", "beat", "sync", "range", "dereg", "disc", "check", "clear", "tick", "tick">>
+KindsAll == <<"http", "grpc", "weight", "beat", "sync", "range", "dereg", "disc", "check", "clear", "tick", "tick", "echo_upd", "echo_rm">>
 KindsExpiry == <<"http", "http", "grpc", "weight", "beat", "beat", "sync", "sync", "range", "dereg", "check", "check", "tick", "tick", "tick">>
 
-KindsConn == <<"http", "grpc", "grpc", "grpc", "weight", "sync", "dereg", "dereg", "disc", "disc", "check", "tick">>
+KindsConn == <<"http", "grpc", "grpc", "grpc", "weight", "sync", "dereg", "dereg", "disc", "disc", "check", "tick", "echo_upd", "echo_rm">>
 
 SimInit == Init /\ pending = "none"
 
@@ -25,8 +25,11 @@ SimNext ==
     \/ /\ pending = "range" /\ pending' = "none" /\ \E o \in SUBSET Svcs : RefreshRange(o)
     \/ /\ pending = "check" /\ pending' = "none" /\ TimeCheck
     \/ /\ pending = "clear" /\ pending' = "none" /\ ClearEmpty
+    \* applied Raft entries about persistent instances, whoever wrote them (this node after a local update, or another node)
+    \/ /\ pending = "echo_upd" /\ pending' = "none" /\ \E s \in Svcs, a \in Addrs : RaftEchoUpdate(s, a)
+    \/ /\ pending = "echo_rm" /\ pending' = "none" /\ \E s \in Svcs, a \in Addrs : (Has(s, a) /\ RaftEchoRemove(s, a))
     \/ /\ pending = "tick" /\ pending' = "none" /\ Tick
-    \/ /\ pending \in {"weight", "dereg", "clear", "tick"} /\ ops < MaxOps - 1 /\ pending' = "none" /\ UNCHANGED vars
+    \/ /\ pending \in {"weight", "dereg", "clear", "tick", "echo_upd", "echo_rm"} /\ ops < MaxOps - 1 /\ pending' = "none" /\ UNCHANGED vars
 
 SimSpec == SimInit /\ [][SimNext]_<<vars, pending>>
 =============================================================================
